@@ -280,6 +280,61 @@ def _task(args):
         _run.cleanup_now()
 
 
+WORKER_AS_LIMIT = 12 << 30   # a runaway model or generator becomes a MemoryError in its own shard instead of taking the machine down
+
+
+def _child(conn, args):
+    try:
+        import resource
+        resource.setrlimit(resource.RLIMIT_AS, (WORKER_AS_LIMIT, WORKER_AS_LIMIT))
+    except Exception:
+        pass
+    try:
+        conn.send(_task(args))
+    finally:
+        conn.close()
+
+
+def _run_tasks(mpctx, arglist, jobs):
+    """One process per task (fresh interpreter state, as with maxtasksperchild=1), at most `jobs` at a time. Unlike multiprocessing.Pool,
+    a worker that dies without delivering its result (killed by the kernel, segfault) is noticed: its shard becomes a harness error."""
+    from multiprocessing.connection import wait
+    pending = list(arglist)
+    running = {}     # sentinel -> (process, parent_conn, args)
+    results = []
+    while pending or running:
+        while pending and len(running) < jobs:
+            a = pending.pop(0)
+            pc, cc = mpctx.Pipe(duplex=False)
+            pr = mpctx.Process(target=_child, args=(cc, a))
+            pr.start()
+            cc.close()
+            running[pr.sentinel] = (pr, pc, a)
+        ready = wait([v[1] for v in running.values()] + list(running.keys()), timeout=5.0)
+        for sent, (pr, pc, a) in list(running.items()):
+            if pc in ready or sent in ready:
+                r = None
+                try:
+                    if pc.poll(0.5 if sent in ready else 0):
+                        r = pc.recv()
+                except (EOFError, OSError):
+                    r = None
+                if r is None and pr.is_alive() and sent not in ready:
+                    continue
+                pr.join(timeout=30)
+                if r is None:
+                    r = {"sub": a[2], "shard": a[5], "evaluations": 0, "nontrivial": [], "labels": {}, "samples": [], "known_hits": {}, "excluded": {},
+                         "inconclusive": 1, "violations": [], "notes": [], "mlr_invocations": 0, "wall": 0.0,
+                         "error": "worker process died without a result (exit code %s; killed by the kernel or crashed)" % pr.exitcode}
+                results.append(r)
+                try:
+                    pc.close()
+                except OSError:
+                    pass
+                del running[sent]
+    return results
+
+
 def run_property(prop, tier, master_seed, only_sub=None, jobs=None, log=None, deadline_s=None):
     """Returns (exit_code, evidence_dict). Prints VIOLATION / KNOWN-FINDING lines."""
     from . import build, run as _run
@@ -351,9 +406,7 @@ def run_property(prop, tier, master_seed, only_sub=None, jobs=None, log=None, de
         for _, a in tasks:
             results.append(_task(a))
     else:
-        with mpctx.Pool(min(jobs, len(tasks)), maxtasksperchild=1) as pool:
-            for r in pool.imap_unordered(_task, [a for _, a in tasks], chunksize=1):
-                results.append(r)
+        results = _run_tasks(mpctx, [a for _, a in tasks], min(jobs, len(tasks)))
     # ---- merge
     per_sub = collections.OrderedDict()
     for s in mod.SUBCHECKS:
